@@ -16,7 +16,7 @@ func init() {
 		decided: "R1 the decision table of configGroup.getConfig (config groups of up to three over the keys exact, *.b.c, *.*.c, *.*.*, catch-all and two shorter patterns; SNI name in another letter case; opaque labels): the config of the most specific matching key is selected, an arbitrary one only when none matches; GetConfigForClient returns the matched config's own tls.Config; " +
 			"R2 the decision table of SetDefaultTLSParams: a site-set minimum version is kept, otherwise a constant ≥ TLS 1.2 is installed, TLS_FALLBACK_SCSV is first in the cipher list; and the standard tls.Config takes version range, client-auth policy and ALPN (with acme-tls/1) from the site's Config; " +
 			"R3 MakeTLSConfig returns an error when two configs of one listener disagree on Enabled, and propagates assertConfigsCompatible's error for a repeated hostname; " +
-			"R4 serveHTTP answers 403 under exactly {SNI matching not disabled, request arrived over TLS, site demands client certificates, SNI and Host differ ignoring case} — no further condition. Since round 4: R5 makeTLSConfig shows every site of the listener to MakeTLSConfig (groups of 1-3 sites, shared host names) and returns its verdict. Since round 7: R6 same-name sites (all spellings of the catch-all) are compared before one replaces the other; R2 a site with a client certificate policy disables session tickets.",
+			"R4 serveHTTP answers 403 under exactly {SNI matching not disabled, request arrived over TLS, site demands client certificates, SNI and Host differ ignoring case} — no further condition. Since round 4: R5 makeTLSConfig shows every site of the listener to MakeTLSConfig (groups of 1-3 sites, shared host names) and returns its verdict. Since round 7: R6 same-name sites (all spellings of the catch-all) are compared before one replaces the other; R2 a site with a client certificate policy disables session tickets. Since round 8: R7 the protocol range, cipher list and client-certificate policy are stored only while their own subdirective is handled (a later tls directive does not reset them).",
 		notDecided: "what crypto/tls negotiates from these settings; certificate selection inside certmagic; the arbitrary last-resort config when nothing matches.",
 	})
 }
